@@ -54,7 +54,11 @@ struct Harness {
       base.push_back(&lex.get_as_type(q(6, lex.get_pointer(L.char_type()))));
       base.push_back(&lex.get_decltype(q(2, L.double_type())));
       base.push_back(&lex.get_pointer(q(1, L.char_type())));
-      while (base.size() < 44) base.push_back(&lex.get_pointer(*base[base.size() - 7]));
+      base.push_back(&lex.get_array(q(1, L.long_type()), *lex.make_literal(L.int_type(), u8"3")));
+      base.push_back(&lex.get_array(q(2, L.float_type()), *lex.make_literal(L.int_type(), u8"4")));
+      base.push_back(&lex.get_reference(q(3, L.int_type())));
+      { impl::Warehouse<Type> w; w.push_back(q(1, L.bool_type())); base.push_back(&lex.get_function(lex.get_product(w), q(2, L.uint_type()))); }
+      while (base.size() < 48) base.push_back(&lex.get_pointer(*base[base.size() - 7]));
       for (auto t : base) if (t->category == Category_code::Qualified) { ctx().inconclusive("harness: base pool contains a qualified type"); }
    }
 
